@@ -1,4 +1,5 @@
 import B6.Model.Proto.Feed
+import B6.Lemmas.ProtoMeasure
 /-! Invariants of the `Feed` protocol model (helper lemmas for `Props/C28.lean`). -/
 namespace B6.Model.Proto.Feed
 open B6.Model.Proto
@@ -8,6 +9,7 @@ theorem mem_step {c : Cfg} {s s' : St} : s' ∈ step c s ↔ s.ret = none ∧
     ∨ (inLoop c s ∧ s.cancelled = true ∧ s' = { s with stopped := true })
     ∨ (s.closed = false ∧ ¬ inLoop c s ∧ s' = { s with closed := true })
     ∨ (s.closed = true ∧ allExited s ∧ s' = { s with ret := some s.cause })
+    ∨ (c.ext = true ∧ s.cancelled = false ∧ s' = { s with cancelled := true })
     ∨ (∃ i w, s.ws[i]? = some w ∧ s' ∈ workerStep c s i w)) := by
   unfold step
   cases hr : s.ret with
@@ -15,14 +17,16 @@ theorem mem_step {c : Cfg} {s s' : St} : s' ∈ step c s ↔ s.ret = none ∧
   | none =>
     simp only [Option.isSome_none, Bool.false_eq_true, ↓reduceIte, List.mem_append, mem_forWorkers, mem_guard, true_and]
     constructor
-    · rintro ((((h | h) | h) | h) | h)
+    · rintro (((((h | h) | h) | h) | h) | h)
       · exact Or.inl ⟨h.1.1, h.1.2, h.2⟩
       · exact Or.inr (Or.inl ⟨h.1.1, h.1.2, h.2⟩)
       · exact Or.inr (Or.inr (Or.inl ⟨h.1.1, h.1.2, h.2⟩))
       · exact Or.inr (Or.inr (Or.inr (Or.inl ⟨h.1.1, h.1.2, h.2⟩)))
-      · exact Or.inr (Or.inr (Or.inr (Or.inr h)))
-    · rintro (h | h | h | h | h)
-      · exact Or.inl (Or.inl (Or.inl (Or.inl ⟨⟨h.1, h.2.1⟩, h.2.2⟩)))
+      · exact Or.inr (Or.inr (Or.inr (Or.inr (Or.inl ⟨h.1.1, h.1.2, h.2⟩))))
+      · exact Or.inr (Or.inr (Or.inr (Or.inr (Or.inr h))))
+    · rintro (h | h | h | h | h | h)
+      · exact Or.inl (Or.inl (Or.inl (Or.inl (Or.inl ⟨⟨h.1, h.2.1⟩, h.2.2⟩))))
+      · exact Or.inl (Or.inl (Or.inl (Or.inl (Or.inr ⟨⟨h.1, h.2.1⟩, h.2.2⟩))))
       · exact Or.inl (Or.inl (Or.inl (Or.inr ⟨⟨h.1, h.2.1⟩, h.2.2⟩)))
       · exact Or.inl (Or.inl (Or.inr ⟨⟨h.1, h.2.1⟩, h.2.2⟩))
       · exact Or.inl (Or.inr ⟨⟨h.1, h.2.1⟩, h.2.2⟩)
@@ -84,7 +88,7 @@ theorem err_set {s : St} {ws' : List W} {i : Nat} {w x : W} (hw : s.ws[i]? = som
 theorem inv_step {c : Cfg} {s s' : St} (I : Inv c s) (h : s' ∈ step c s) : Inv c s' := by
   obtain ⟨hr, h⟩ := mem_step.mp h
   have hret : ∀ r, s.ret = some r → False := by intro r e; rw [hr] at e; cases e
-  rcases h with ⟨hl, hq, rfl⟩ | ⟨hl, hc, rfl⟩ | ⟨hc, hl, rfl⟩ | ⟨hc, ha, rfl⟩ | ⟨i, w, hw, h⟩
+  rcases h with ⟨hl, hq, rfl⟩ | ⟨hl, hc, rfl⟩ | ⟨hc, hl, rfl⟩ | ⟨hc, ha, rfl⟩ | ⟨_, _, rfl⟩ | ⟨i, w, hw, h⟩
   · -- send
     refine ⟨I.len, I.err, fun r e => (hret r e).elim, I.live, ?_, I.late0⟩
     have := I.late0 hl.2.1
@@ -96,6 +100,8 @@ theorem inv_step {c : Cfg} {s s' : St} (I : Inv c s) (h : s' ∈ step c s) : Inv
   · -- return
     refine ⟨I.len, I.err, ?_, I.live, I.cap, I.late0⟩
     intro r e; simp only [Option.some.injEq] at e; exact ⟨e.symm, ha⟩
+  · -- the caller cancels its context
+    exact ⟨I.len, I.err, fun r e => (hret r e).elim, by intro _ h2; simp at h2, I.cap, I.late0⟩
   · rcases mem_workerStep h with ⟨rfl, _, hcan, rfl⟩ | ⟨rfl, k, q, hq, rfl⟩ | ⟨rfl, hq, hc, rfl⟩ |
       ⟨k, rfl, hf, rfl⟩ | ⟨k, rfl, hf, rfl⟩ | ⟨rfl, rfl⟩
     · -- idle worker leaves through ctx.Done()
@@ -137,5 +143,41 @@ theorem inv_step {c : Cfg} {s s' : St} (I : Inv c s) (h : s' ∈ step c s) : Inv
 
 theorem inv_reachable {c : Cfg} {s : St} (h : Reachable (step c) (init c) s) : Inv c s :=
   Reachable.invariant (Inv c) (inv_init c) (fun _ _ I hm => inv_step I hm) s h
+
+/-! ### a measure that every step decreases -/
+
+def wweight : W → Nat
+  | .idle => 1
+  | .busy _ => 2
+  | .failing => 1
+  | .exited => 0
+
+/-- 3 per item not yet sent, 2 per item in the channel, 2 / 1 per worker that is busy / has not left, 1 each for the
+producer's Done arm, `close`, `return`, and the cancellation of the context -/
+def measure (c : Cfg) (s : St) : Nat :=
+  3 * (c.n - s.next) + 2 * s.queue.length + (s.ws.map wweight).sum
+    + flag s.stopped + flag s.closed + flag s.ret.isSome + flag s.cancelled
+
+theorem measure_step {c : Cfg} {s s' : St} (h : s' ∈ step c s) : measure c s' < measure c s := by
+  obtain ⟨hr, h⟩ := mem_step.mp h
+  rcases h with ⟨hl, hq, rfl⟩ | ⟨hl, hc, rfl⟩ | ⟨hc, hl, rfl⟩ | ⟨hc, ha, rfl⟩ | ⟨_, hc, rfl⟩ | ⟨i, w, hw, h⟩
+  · have := hl.2.2
+    simp only [measure, List.length_append, List.length_cons, List.length_nil]; omega
+  · simp only [measure, hl.2.1, flag]; simp
+  · simp only [measure, hc, flag]; simp
+  · simp only [measure, hr, flag]; simp
+  · simp only [measure, hc, flag]; simp
+  · have key : ∀ x : W, ((s.ws.set i x).map wweight).sum + wweight w = (s.ws.map wweight).sum + wweight x :=
+      fun x => sum_map_set' wweight s.ws i w x hw
+    have fc : flag true ≤ flag s.cancelled := by simp [flag]
+    rcases mem_workerStep h with ⟨rfl, _, hcan, rfl⟩ | ⟨rfl, k, q, hq, rfl⟩ | ⟨rfl, hq, hc, rfl⟩ |
+      ⟨k, rfl, hf, rfl⟩ | ⟨k, rfl, hf, rfl⟩ | ⟨rfl, rfl⟩
+    · have := key W.exited; simp only [wweight] at this; simp only [measure]; omega
+    · have := key (W.busy k); simp only [wweight] at this
+      simp only [measure, hq, List.length_cons]; omega
+    · have := key W.exited; simp only [wweight] at this; simp only [measure]; omega
+    · have := key W.failing; simp only [wweight] at this; simp only [measure]; omega
+    · have := key W.idle; simp only [wweight] at this; simp only [measure]; omega
+    · have := key W.exited; simp only [wweight] at this; simp only [measure]; omega
 
 end B6.Model.Proto.Feed
